@@ -147,12 +147,13 @@ func c05(c *Ctx) {
 		c.errMustPropagate("C05.wrapper", c.fn("(*Conn).ReadMessage"), all, core.Opts{})
 	}
 	r.Rule("C05.early-bytes", "bytes buffered before the upgrade are replayed completely (same rule as C17.brnetconn): otherwise a message is reported complete with foreign content")
-	c.borrow(c17, map[string]string{"C17.brnetconn": "C05.early-bytes", "C17.server-reader-choice": "C05.early-bytes"})
+	c.borrow(c17, map[string]string{"C17.brnetconn": "C05.early-bytes", "C17.server-reader-choice": "C05.early-bytes", "C17.reader-stable": "C05.early-bytes"})
 	r.Rule("C05.control-frames-readable", "a control frame of any legal size between messages can be read with every read buffer size, so messages that arrived completely behind it are still reported (same rule as C08.read-buffer)")
 	c08readBufferAs(c, rd, "C05.control-frames-readable")
 	r.Rule("C05.control-undisturbing", "a control frame between messages never turns a write-side fault into a read error: the default ping/pong handlers return nil whatever WriteControl reports, so messages that fully arrived behind the control frame are still delivered (same rule as C08.defaults)")
 	c08defaults(c, rd, "C05.control-undisturbing")
 	r.Rule("C05.reader-wrappers", "every Read method layered over the message reader or the transport passes inner faults on: an inner error that is not io.EOF is never replaced by nil or io.EOF, and bytes delivered with it are not dropped (same rule as C03.reader-wrappers)")
+	c.readerSiblings("C05.reader-wrappers")
 	if c.readerWrappers("C05.reader-wrappers") < 4 {
 		r.Fail("C05.reader-wrappers", "package", "floor", c.fn("(*joinReader).Read").Pos(), "fewer than the 4 known reader wrappers were analysed")
 	}
